@@ -23,7 +23,7 @@ def gen_cases(rng, tier):
         shapes += [(8, 4, 4), (9, 4, 2), (11, 5, 1), (12, 1, 6), (7, 7, 3)]
     # lenb = C(11,5) = 462 and C(12,6) = 924 cross the 450 batch; lena = C(9,4) = 126 crosses block 100
     for norb, na, nb in shapes:
-        for op in ('apply_r2', 'apply_gso1', 'apply_r3', 'evolve_diag', 'evolve_dc', 'evolve_ind', 'evolve_quad', 'rdm12', 'rdm3',
+        for op in ('apply_r2', 'apply_gso1', 'apply_gso1_col', 'apply_r3', 'evolve_diag', 'evolve_dc', 'evolve_ind', 'evolve_quad', 'rdm12', 'rdm3',
                    'cirq', 'graph', 'apply_sparse', 's2'):
             if op in ('apply_r3', 'rdm3') and norb > 6:
                 continue
@@ -66,10 +66,31 @@ def run_impl(case, mode):
             a = a + 1j * rs.randint(-2, 3, size=shape)
         return a
 
+    # guard bands (used by the C13 sweep): every coefficient matrix handed to a kernel is a view into the middle of a
+    # NaN-filled buffer four matrix sizes wide on either side, so that a strided out-of-bounds READ that stays inside the heap
+    # (and therefore escapes the address sanitizer's red zones) puts NaN into the result, and an out-of-bounds WRITE damages
+    # the band
+    import os
+    guard = os.environ.get('FQE_VERIF_GUARD') == '1'
+    bands = []
+
+    def rehome(wfn):
+        if not guard:
+            return
+        for key in wfn.sectors():
+            sc = wfn.sector(key)
+            n = sc.coeff.size
+            buf = numpy.full(9 * n + 2, numpy.nan + 1j * numpy.nan, dtype=numpy.complex128)
+            view = buf[4 * n:5 * n].reshape(sc.coeff.shape)
+            view[...] = sc.coeff
+            sc.coeff = view
+            bands.append((buf, 4 * n, 5 * n))
+
     w = fqe.Wavefunction([[nele, sz, norb]])
     sec = w.sector((nele, sz))
     shape = sec.coeff.shape
     w.set_wfn(strategy='from_data', raw_data={(nele, sz): iarr(shape)})
+    rehome(w)
     outs = []
     exact = True
     if op == 'apply_r2':
@@ -80,9 +101,24 @@ def run_impl(case, mode):
         wb = fqe.get_number_conserving_wavefunction(nele, norb)
         data = {k: iarr(wb.sector(k).coeff.shape) for k in wb.sectors()}
         wb.set_wfn(strategy='from_data', raw_data=data)
+        rehome(wb)
         h1 = iarr((2 * norb, 2 * norb))
         o = wb.apply(fqe.get_gso_hamiltonian((h1,)))
         outs += [o.sector(k).coeff for k in sorted(o.sectors())]
+    elif op == 'apply_gso1_col':
+        # single non-zero column of a spin-orbital one-body operator (the fixed-column kernels: both spin blocks, spin
+        # conserving and spin flipping parts), on every s_z sector of the particle number
+        wb = fqe.get_number_conserving_wavefunction(nele, norb)
+        data = {k: iarr(wb.sector(k).coeff.shape) for k in wb.sectors()}
+        wb.set_wfn(strategy='from_data', raw_data=data)
+        rehome(wb)
+        h1 = iarr((2 * norb, 2 * norb))
+        for col in sorted(set([0, norb - 1, norb, 2 * norb - 1, int(rs.randint(0, 2 * norb))])):
+            hc = numpy.zeros_like(h1)
+            hc[:, col] = h1[:, col]
+            hc[col, col] = 1.0
+            o = wb.apply(fqe.get_gso_hamiltonian((hc,)))
+            outs += [o.sector(k).coeff for k in sorted(o.sectors())]
     elif op == 'apply_r3':
         h1 = iarr((norb, norb))
         h2 = iarr((norb,) * 4)
@@ -126,10 +162,21 @@ def run_impl(case, mode):
         c = copy.deepcopy(w)
         c.sector((nele, sz)).apply_inplace_s2()
         outs.append(c.sector((nele, sz)).coeff)
-    # canonical: exact kernels bit-for-bit; transcendental ones rounded to 1e-12 (libm/vector width may differ with thread chunking)
+    # canonical: exact kernels bit-for-bit (digest); transcendental ones (libm / vector width may differ in the last ulp with
+    # thread chunking and build flags) are returned as numbers and compared with a tolerance - rounding before hashing is
+    # fragile at rounding boundaries (see DESIGN, corrections)
+    gres = {}
+    if guard:
+        nan_out = any((not numpy.isfinite(numpy.asarray(o, dtype=numpy.complex128)).all()) for o in outs
+                      if numpy.asarray(o).dtype.kind in 'fc')
+        damaged = any((not numpy.isnan(buf[:lo]).all()) or (not numpy.isnan(buf[hi:]).all()) for buf, lo, hi in bands)
+        gres = {'guard_nan_in_output': bool(nan_out), 'guard_band_damaged': bool(damaged), 'guard_bands': len(bands)}
     if not exact:
-        outs = [numpy.round(numpy.asarray(o), 12) + 0.0 for o in outs]
-    return {'digest': _digest(outs), 'n': len(outs), 'exact': exact, 'dim': [int(shape[0]), int(shape[1])]}
+        import base64
+        flat = numpy.concatenate([numpy.asarray(o, dtype=numpy.complex128).reshape(-1) for o in outs]) if outs else numpy.zeros(0, dtype=numpy.complex128)
+        return dict(gres, digest='inexact', raw=base64.b64encode(flat.tobytes()).decode(), n=len(outs), exact=False,
+                    dim=[int(shape[0]), int(shape[1])])
+    return dict(gres, digest=_digest(outs), n=len(outs), exact=exact, dim=[int(shape[0]), int(shape[1])])
 
 
 def expected(model, case):
@@ -170,7 +217,14 @@ def extra_checks(bdir, model, rng, tier, stats):
                 out.append(('kernel %s on (norb,na,nb)=(%d,%d,%d) failed under %s: %s' % (c['op'], c['norb'], c['na'], c['nb'], label, str(b)[:200]),
                             {'property': PID, 'case': c, 'run': label, 'result': b}, None))
                 continue
-            if a['digest'] != b['digest']:
+            differs = a['digest'] != b['digest']
+            if not differs and 'raw' in a:
+                import base64
+                import numpy
+                xa = numpy.frombuffer(base64.b64decode(a['raw']), dtype=numpy.complex128)
+                xb = numpy.frombuffer(base64.b64decode(b.get('raw', '')), dtype=numpy.complex128)
+                differs = xa.shape != xb.shape or (xa.size and float(numpy.abs(xa - xb).max()) > 1e-11 * (1.0 + float(numpy.abs(xa).max())))
+            if differs:
                 out.append(('output of %s on (norb,na,nb)=(%d,%d,%d) differs between %s and %s' % (c['op'], c['norb'], c['na'], c['nb'], base_label, label),
                             {'property': PID, 'case': c, 'runs': [base_label, label], 'how': 'OMP_NUM_THREADS=<n> ./check C10 --replay <this file>'}, None))
         if len(out) > 4:
@@ -207,7 +261,8 @@ def sample(case):
     return case
 
 
-THEOREM_FILES = ['P_C10']
+THEOREM_FILES = ['P_C10', 'P_C10_zmat']
+THEOREM_NEEDS = {'P_C10_zmat': ['Equiv_zmat_c']}
 RULE = ('kernels driven through the public API (restricted rank 2-3 apply, GSO apply on spin-broken states, sparse apply, '
         'diagonal / diagonal-Coulomb / single-term / quadratic evolution, RDMs rank 1-3, Cirq conversion both ways, graph and '
         'column-map construction, S^2) on 8-13 sector shapes incl. lenb = 462/924 (> 450 batch) and lena = 126 (> block 100) '
